@@ -1,5 +1,6 @@
 """C14 - preprocessing histories (decimate / detrend / filter / rollback / add_algorithms) on SingleSetup and
-MultiSetup_PreGER.  Model: coq/Model/M_prep.v; theorems: coq/Properties/C14.v.
+MultiSetup_PreGER.  Model: coq/Model/M_prep.v (terms) and coq/Model/M_prep_mem.v (buffers: who holds / reads / allocates /
+writes which array); theorems: coq/Properties/C14.v.
 
 Correspondence: for every history the model state (exact rationals fs, dt, Ndat(s), T(s); the data as symbolic TERMS) is
 computed in Coq; the implementation's attributes are compared with it, and its arrays with the harness's evaluation of
@@ -45,6 +46,17 @@ ALPHA["R"] = [("dec", 3, {}), ("dec", 2, {})] + REFUSED + [("filt", 1.0, 2, "low
 # malformed stream: undocumented keyword names (TypeError expected), one per method that takes **kwargs
 BAD_OPS = [("dec", 2, {"foo": 1}), ("det", {"typ": "linear"}), ("dec", 3, {"ftype": "fir", "order": 8}), ("det", {"type": "linear", "breakpoints": [10]})]
 
+# parameter order of the public preprocessing entry points as read from the pristine /repo/src (setup/single.py, setup/multi.py,
+# setup/base.py, functions/gen.py) - hard-coded: a changed tree must not redefine the expected order
+POSITIONAL_ORDER = {
+    "decimate_data": ("q",),                          # SingleSetup / MultiSetup_PreGER .decimate_data(q, **kwargs)
+    "detrend_data": (),                               # .detrend_data(**kwargs): keywords only
+    "filter_data": ("Wn", "order", "btype"),          # .filter_data(Wn, order=8, btype="lowpass")
+    "_decimate_data": ("data", "fs", "q"),            # BaseSetup._decimate_data(data, fs, q, **kwargs) -> (newdata, fs, dt, Ndat, T)
+    "_detrend_data": ("data",),                       # BaseSetup._detrend_data(data, **kwargs)
+    "_filter_data": ("data", "fs", "Wn", "order", "btype"),       # BaseSetup._filter_data(data, fs, Wn, order=8, btype="lowpass")
+    "gen.filter_data": ("data", "fs", "Wn", "order", "btype"),    # functions.gen.filter_data(data, fs, Wn, order=4, btype="lowpass")
+}
 METHOD = {"dec": "decimate_data", "det": "detrend_data", "filt": "filter_data", "rb": "rollback", "add": "add_algorithms", "readd": "add_algorithms"}
 
 
@@ -106,6 +118,11 @@ def value_space():
 
 def op_key(op):
     return json.dumps(op, sort_keys=True)
+
+
+def strip_ow(kw):
+    """overwrite_data decides WHERE scipy.signal.detrend puts its result, not its value (the harness's pristine arrays are read-only)."""
+    return {k: v for k, v in kw.items() if k != "overwrite_data"}
 
 
 # ------------------------------------------------------------------------------------------------ argument forms
@@ -424,7 +441,7 @@ def eval_term(cfg, t):
                 if t[0] == "D":
                     r = signal.decimate(x, t[1], axis=0, **real_kw(kw_dict(t[2]), t[1]))
                 elif t[0] == "T":
-                    r = signal.detrend(x, axis=0, **kw_dict(t[1]))
+                    r = signal.detrend(x, axis=0, **strip_ow(kw_dict(t[1])))
                 else:
                     wn = [float(w) for w in t[2]]
                     sos = signal.butter(t[3], wn if len(wn) > 1 else wn[0], btype=t[4], output="sos", fs=float(t[1]))
@@ -455,7 +472,7 @@ def reference(cfg, since):
                 if op[0] == "dec":
                     r = ([signal.decimate(a, op[1], axis=0, **real_kw(op[2], op[1])) for a in arrs], fsx / op[1])
                 elif op[0] == "det":
-                    r = ([signal.detrend(a, axis=0, **op[1]) for a in arrs], fsx)
+                    r = ([signal.detrend(a, axis=0, **strip_ow(op[1])) for a in arrs], fsx)
                 else:
                     sos = signal.butter(op[2], op[1], btype=op[3], output="sos", fs=float(fsx))
                     r = ([signal.sosfiltfilt(sos, a, axis=0) for a in arrs], fsx)
@@ -463,6 +480,9 @@ def reference(cfg, since):
                 r = (e, fsx)
     memo[key] = r
     return r
+
+
+SINGLE_PRECISION_LINEAGE = [False]   # set by the memory-layer block while it drives a configuration holding a float32 record
 
 
 def close(a, b):
@@ -474,6 +494,8 @@ def close(a, b):
         return True
     if b.dtype == np.float32:       # SciPy keeps single precision for decimate / detrend of a float32 record
         return bool(np.all(np.abs(a.astype(float) - b.astype(float)) <= 1e-5 * max(1e-300, float(np.abs(b).max()))))
+    if SINGLE_PRECISION_LINEAGE[0]:  # float64 results computed FROM a float32 record (in place / on a copy in another memory order)
+        return bool(np.all(np.abs(a - b) <= 1e-4 * max(1e-300, float(np.abs(b).max()))))
     return bool(np.all(np.abs(a - b) <= ATOL_ARR * max(1e-300, float(np.abs(b).max()))))
 
 
@@ -524,12 +546,23 @@ class Impl:
         o = self.obj
         form = form or forms_of(op)[0]
         params = params if params is not None else Params()
+        # call form: the same call is made fully positionally (in the parameter order of the PRISTINE signatures, hard-coded in
+        # POSITIONAL_ORDER) or with keywords, alternating with the position of the call and the configuration
+        positional = (idx + self.cfg.data_seed) % 2 == 0
         if op[0] == "dec":
-            o.decimate_data(params.get(op, form), **real_kw(op[2], op[1]))
+            assert POSITIONAL_ORDER["decimate_data"] == ("q",)
+            if positional:
+                o.decimate_data(params.get(op, form), **real_kw(op[2], op[1]))
+            else:
+                o.decimate_data(q=params.get(op, form), **real_kw(op[2], op[1]))
         elif op[0] == "det":
             o.detrend_data(**(dict(op[1], bp=params.get(op, form)) if form is not None else op[1]))
         elif op[0] == "filt":
-            o.filter_data(Wn=params.get(op, form), order=op[2], btype=op[3])
+            assert POSITIONAL_ORDER["filter_data"] == ("Wn", "order", "btype")
+            if positional:
+                o.filter_data(params.get(op, form), op[2], op[3])
+            else:
+                o.filter_data(Wn=params.get(op, form), order=op[2], btype=op[3])
         elif op[0] == "rb":
             o.rollback()
         else:
@@ -790,6 +823,399 @@ def run_history(ctx, rec, cfg, ops, model, all_steps, forms=None, params=None, s
     return True
 
 
+# ------------------------------------------------------------------------------------------------ memory layer
+# Model: coq/Model/M_prep_mem.v (buffers with identities), evaluated with ow = false (the present code: overwrite_data never reaches SciPy).  For every history the model says, after every call, which buffer
+# the user's arrays, the stored initial copy, the current data, the handed-over data and every algorithm instance live in,
+# what every buffer holds, whether its dtype is floating, and which buffers the call wrote.  The implementation's objects are
+# observed with np.shares_memory (alias pattern), bit-exact snapshots before / after every call (written pattern), the SciPy
+# evaluation of the model's content terms (contents) and dtype.char (floating flag).
+HEADER_MEM = HEADER0 + "\nFrom PyOMA.Model Require Import M_prep_mem."
+OW_KEY = "C14:detrend_data:overwrite_data-writes-user-array"
+M_ALPHA = [("dec", 2, {}), ("det", {}), ("det", {"overwrite_data": True}), ("det", {"type": "constant", "overwrite_data": True}),
+           ("filt", 2.0, 2, "lowpass"), ("rb",), ("add",)]
+M_EXTRA = [("dec", 3, {"ftype": "fir"}), ("det", {"type": "l", "overwrite_data": True, "bp": [50]}), ("det", {"type": "c"}), ("readd",),
+           ("det", {"overwrite_data": False}), ("det", {"type": "linear", "overwrite_data": 1}), ("dec", 2, {"zero_phase": False})]
+
+
+def overwrites(op):
+    return op[0] == "det" and bool(op[1].get("overwrite_data"))
+
+
+def is_floating(a):
+    return np.asarray(a).dtype.char in "dfDF"
+
+
+def parse_mem_state(s):
+    f = s.split("|")
+    assert len(f) == 8, s
+    ids = lambda x: [int(v) for v in x.split()]
+    bound = []
+    for item in (f[4].split(";") if f[4] else []):
+        nm, l = item.split(":", 1)
+        bound.append((int(nm), ids(l)))
+    heap = {}
+    for item in (f[7].split(";") if f[7] else []):
+        i, b = item.split("=", 1)
+        heap[int(i)] = (b[0] == "f", parse_view(b[1:], None))
+    return dict(user=ids(f[0]), init=ids(f[1]), cur=ids(f[2]), data=ids(f[3]), bound=bound, writes=ids(f[5]), nlog=int(f[6]), heap=heap)
+
+
+def mem_model_slots(cfg, ms, alg_names):
+    """[(slot name, (buffer id, part))]: user arrays, stored copy, current data, handed-over data, then what every algorithm
+    instance holds (its latest binding), in a fixed order; a PreGER data buffer is the pair of arrays ref / mov."""
+    parts = [None] if cfg.single else ["ref", "mov"]
+    out = [("user%d" % k, (i, None)) for k, i in enumerate(ms["user"])]
+    out += [("init%d" % k, (i, None)) for k, i in enumerate(ms["init"])]
+    out += [("cur%d" % k, (i, None)) for k, i in enumerate(ms["cur"])]
+    out += [("data%d%s" % (k, p or ""), (i, p)) for k, i in enumerate(ms["data"]) for p in parts]
+    latest = {}
+    for nm, l in ms["bound"]:
+        latest[nm] = l
+    for nm in alg_names:
+        out += [("alg%d.%d%s" % (nm, k, p or ""), (i, p)) for k, i in enumerate(latest.get(nm, [])) for p in parts]
+    return out
+
+
+def mem_impl_slots(cfg, im, algs):
+    o = im.obj
+    out = [("user%d" % k, a) for k, a in enumerate(im.user)]
+    ini = [o._initial_data] if cfg.single else list(o._initial_datasets)
+    out += [("init%d" % k, a) for k, a in enumerate(ini)]
+    out += [("cur%d" % k, a) for k, a in enumerate(im.datasets())]
+
+    def handed(name, d):
+        if cfg.single:
+            return [("%s0" % name, d)]
+        return [("%s%d%s" % (name, k, p), v[p]) for k, v in enumerate(d) for p in ("ref", "mov")]
+    out += handed("data", o.data)
+    for nm, alg in algs:
+        out += handed("alg%d." % nm, alg.data)
+    return out
+
+
+def alias_labels(keys, share):
+    lab = []
+    for i in range(len(keys)):
+        lab.append(next(j for j in range(i + 1) if j == i or share(keys[j], keys[i])))
+    return lab
+
+
+def real_share(a, b):
+    return a is b or (a.size > 0 and b.size > 0 and bool(np.shares_memory(a, b)))
+
+
+def mem_content_ok(cfg, content, part, arr):
+    e = eval_term(cfg, content[1])
+    if isinstance(e, Exception):
+        return None
+    if content[0] == "W":
+        return part is None and close(arr, e)
+    if part is None:
+        return False
+    cols = content[2] if part == "ref" else content[3]
+    return close(arr, e[:, cols].T)
+
+
+def run_mem_history(ctx, rec, cfg, ops, trace):
+    """trace: the model's memory states [after construction, after call 1, ...] (a call that raises leaves the state)."""
+    case = dict(cfg.desc(), ops=[list(o) for o in ops], mem=True)
+    cls = cfg.cls
+    try:
+        im = Impl(cfg)
+    except Exception as e:
+        rec.fail("oracle", "%s(...) raised %s: %s on a valid layout" % (cls, type(e).__name__, e), case, "C14:%s.__init__:raises" % cls)
+        return
+    mops = model_ops(cfg, ops)
+    algs, at_bind, since, ow_seen, reported = [], {}, [], False, set()
+
+    def corr(what, text, step):
+        if what not in reported:
+            reported.add(what)
+            rec.fail("correspondence", text, dict(case, step=step), "C14:%s:mem-%s" % (cls, what))
+
+    def orc(what, text, step, key=None):
+        if what not in reported:
+            reported.add(what)
+            rec.fail("oracle", text, dict(case, step=step), key or "C14:%s" % what)
+
+    def observe(step, site, prev):
+        """prev: (slots before the call, their bytes, the model's slots before the call) or None after construction."""
+        ms = trace[min(step, len(trace) - 1)]
+        names = [nm for nm, _ in algs]
+        mslots = mem_model_slots(cfg, ms, names)
+        try:
+            islots = mem_impl_slots(cfg, im, algs)
+        except Exception as e:
+            corr("crash", "%s: memory observation failed (%s: %s)" % (site, type(e).__name__, e), step)
+            return None
+        if [n for n, _ in mslots] != [n for n, _ in islots]:
+            corr("slots", "%s: the objects hold %s, the model %s" % (site, [n for n, _ in islots], [n for n, _ in mslots]), step)
+            return None
+        arrs = [np.asarray(a) for _, a in islots]
+        # ---- alias pattern
+        la = alias_labels(arrs, real_share)
+        lm = alias_labels([k for _, k in mslots], lambda a, b: a == b)
+        if la != lm:
+            pairs = lambda lab: sorted("%s~%s" % (mslots[j][0], mslots[i][0]) for i, j in enumerate(lab) if j != i)
+            corr("alias", "after %s arrays share memory as %s, the model says %s" % (site, pairs(la), pairs(lm)), step)
+        # ---- contents and floating flags
+        for (name, (bid, part)), a in zip(mslots, arrs):
+            fl, content = ms["heap"][bid]
+            ok = mem_content_ok(cfg, content, part, a)
+            if ok is False:
+                corr("content", "after %s %s does not hold what the model's buffer %d holds" % (site, name, bid), step)
+            if part is None and not name.startswith(("data", "alg")) and is_floating(a) != fl:
+                corr("dtype", "after %s %s has dtype %s, model floating flag %s" % (site, name, a.dtype, fl), step)
+        # ---- written pattern
+        if prev is not None:
+            pslots, pbytes, pm = prev
+            failed_call = ms["nlog"] == pm["nlog"]
+            writes = set() if failed_call else set(ms["writes"])
+            for (name, a), b, (_, (bid, _p)) in zip(pslots, pbytes, pm["slots"]):
+                if a.tobytes() != b and bid not in writes:
+                    corr("write", "%s changed the content of %s (buffer %d), the model's write set is %s" % (site, name, bid, sorted(writes)), step)
+        # ---- the property text
+        want, _ = reference(cfg, since)
+        got = im.datasets()
+        if not isinstance(want, Exception) and (len(got) != len(want) or not all(close(g, w) for g, w in zip(got, want))):
+            orc("%s:data" % site, "after %s the current data differ from the same SciPy calls applied in sequence to the initial data" % site, step)
+        ini = [im.obj._initial_data] if cfg.single else list(im.obj._initial_datasets)
+        if len(ini) != len(cfg.pristine) or not all(same(u, p) for u, p in zip(ini, cfg.pristine)):
+            orc("%s:initial-copy-modified" % site, "%s modified the stored initial copy" % site, step)
+        if any(real_share(np.asarray(u), np.asarray(v)) for u in ini for v in list(im.user) + [np.asarray(x) for x in im.datasets()]):
+            orc("%s:initial-copy-aliased" % site, "after %s the stored initial copy shares memory with the user's arrays or the current data" % site, step)
+        # no call ever modifies the user's arrays; an algorithm keeps what it was handed - unconditionally (a modification that
+        # follows a detrend_data(overwrite_data=True) is the defect repaired by repo commit f6a83e1: its own key)
+        if not all(same(u, p) for u, p in zip(im.user, cfg.pristine)):
+            if ow_seen:
+                orc("ow-user", "%s.detrend_data(overwrite_data=True) detrended the array the USER passed to the constructor in place; property: no call ever modifies the arrays the user passed in" % cls,
+                    step, OW_KEY)
+            else:
+                orc("%s:user-array-modified" % site, "%s modified the arrays the user passed in" % site, step)
+        for nm, alg in algs:
+            s_at, ow_after = at_bind[nm]
+            w_at, _ = reference(cfg, s_at)
+            if isinstance(w_at, Exception) or handed_ok(cfg, alg.data, w_at):
+                continue
+            if ow_after:
+                orc("ow-alg", "%s: the data an algorithm was handed were changed by a later detrend_data(overwrite_data=True)" % cls, step, OW_KEY)
+            else:
+                orc("%s:alg-data-later" % site, "after %s an algorithm added earlier no longer holds the data it was handed" % site, step)
+        return (islots, [a.tobytes() for a in arrs], dict(nlog=ms["nlog"], slots=mslots))
+
+    prev = observe(0, "%s.__init__" % cls, None)
+    for i, (op, mop) in enumerate(zip(ops, mops), 1):
+        site = "%s.%s" % (cls, METHOD[op[0]])
+        # what the call will write is judged against the slots as they are BEFORE the call
+        try:
+            alg = im.call(op, i)
+            raised = None
+        except Exception as e:
+            raised = e
+        if (raised is not None) != (mop[0] == "scipyraises"):
+            corr("raise", "%s %s, SciPy on the same data %s" % (site, "raised %s" % type(raised).__name__ if raised else "succeeded", "raises" if mop[0] == "scipyraises" else "does not"), i)
+            return
+        if raised is None:
+            since = [] if op[0] == "rb" else since + [op]
+            if overwrites(op):
+                ow_seen = True
+                for nm in at_bind:
+                    at_bind[nm][1] = True
+            if op[0] in ("add", "readd"):
+                nm = mop[1]
+                if nm not in [n for n, _ in algs]:
+                    algs.append((nm, alg))
+                at_bind[nm] = [list(since), False]
+        prev = observe(i, site, prev)
+        if prev is None:
+            return
+
+
+class MemEval:
+    """The memory model's traces of mem_jobs = [(cfg, ops)], evaluated by Coq in a background thread (the subprocesses run
+    while the main block drives the implementation; nothing else calls ctx.coq_eval meanwhile)."""
+
+    def __init__(self, ctx, mem_jobs):
+        import threading
+        import time
+        self.ctx, self.jobs, self.t0, self.err, self.res = ctx, mem_jobs, time.time(), None, None
+        letters = Letters()
+        groups = {}
+        for j, (cfg, ops) in enumerate(mem_jobs):
+            groups.setdefault(id(cfg), []).append(j)
+        self.exprs, self.where = [], []
+        for idxs in groups.values():
+            cfg = mem_jobs[idxs[0]][0]
+            fls = clist(["true" if np.dtype(sp[0]).char in "dfDF" else "false" for sp in cfg.dspec])
+            parts, part, nst = [], [], 0       # at most ~16 printed states per expression (Coq's printer overflows on very long strings)
+            for j in idxs:
+                n = len(mem_jobs[j][1]) + 1
+                if part and nst + n > 16:
+                    parts.append(part)
+                    part, nst = [], 0
+                part.append(j)
+                nst += n
+            if part:
+                parts.append(part)
+            for part in parts:
+                hs = clist([clist([letters.name(o) for o in model_ops(cfg, mem_jobs[j][1])]) for j in part])
+                self.exprs.append("showMemTraces false false %s %s %s" % (cfg.coq_args(), fls, hs))   # ow = false: the present code
+                self.where.append(part)
+        self.header = letters.header().replace(HEADER0, HEADER_MEM, 1)
+        self.thread = threading.Thread(target=self._run)
+        self.thread.start()
+
+    def _run(self):
+        import time
+        try:
+            self.res = self.ctx.coq_eval(self.header, self.exprs, shard=max(8, (len(self.exprs) + 11) // 12))
+        except BaseException as e:   # re-raised in the main thread
+            self.err = e
+        self.eval_s = round(time.time() - self.t0, 1)
+
+    def traces(self):
+        self.thread.join()
+        if self.err is not None:
+            raise self.err
+        out = [None] * len(self.jobs)
+        for part, s in zip(self.where, self.res):
+            hs = s.split("#")
+            if len(hs) != len(part):
+                raise AssertionError("memory model printed %d histories for %d" % (len(hs), len(part)))
+            for j, h in zip(part, hs):
+                out[j] = h
+        return out
+
+
+def mem_block(ctx, rec, mem_jobs, ev):
+    """mem_jobs: [(cfg, ops)]; ev: their MemEval."""
+    if not mem_jobs:
+        return
+    import time
+    traces = ev.traces()
+    t0 = time.time()
+    ctx.extra["mem_model_eval_s"] = ev.eval_s
+    for (cfg, ops), h in zip(mem_jobs, traces):
+        case = dict(cfg.desc(), ops=[list(o) for o in ops], mem=True)
+        if h.startswith("E:"):
+            rec.fail("correspondence", "memory model rejects the layout (%s)" % h, case, "C14:%s:mem-init" % cfg.cls)
+        else:
+            SINGLE_PRECISION_LINEAGE[0] = any(sp[0] == "float32" for sp in cfg.dspec)
+            try:
+                run_mem_history(ctx, rec, cfg, ops, [parse_mem_state(x) for x in h.split("~")])
+            finally:
+                SINGLE_PRECISION_LINEAGE[0] = False
+        ctx.count(case, nontrivial=any(o[0] in ("dec", "det", "filt") for o in ops))
+        ctx.hist("source", "memory layer")
+        ctx.hist("memory layer: class/dtypes", "%s/%s" % (cfg.cls, ",".join(sp[0] + sp[1] for sp in cfg.dspec)))
+        ctx.hist("memory layer: in-place calls in history", sum(1 for o in ops if overwrites(o)))
+        ctx.hist("memory layer: length", len(ops))
+    ctx.extra["mem_histories"] = len(mem_jobs)
+    ctx.extra["mem_impl_s"] = round(time.time() - t0, 1)
+
+
+def mem_jobs_generated(ctx):
+    rng = ctx.rng
+    cfgs = [
+        (Cfg(True, 100.0, [(400, 3)], [], 201, None, "float"), ctx.n(3, 4)),
+        (Cfg(False, 100.0, [(400, 3), (420, 2)], [[0, 1], [1]], 202, None, "float", [["float64", "C", False], ["int16", "C", False]]), ctx.n(3, 4)),
+        (Cfg(True, 100, [(400, 3)], [], 203, None, "int", [["int16", "C", False]]), ctx.n(2, 3)),
+        (Cfg(False, 120, [(400, 2), (400, 3)], [[1], [2, 0]], 204, None, "int64", [["float32", "F", False], ["float64", "F", False]]), ctx.n(2, 3)),
+        (Cfg(True, 100.0, [(400, 2)], [], 205, None, "float", [["float32", "F", False]]), ctx.n(2, 2)),
+    ]
+    jobs = []
+    for cfg, L in cfgs:
+        for n in range(0, L + 1):
+            # the longest words over six letters (detrend(type="constant", overwrite_data=True) only in the shorter ones)
+            for w in itertools.product(M_ALPHA if (n < 3 or not ctx.quick()) else [o for o in M_ALPHA if o != M_ALPHA[3]], repeat=n):
+                jobs.append((cfg, list(w)))
+    allm = M_ALPHA + M_EXTRA
+    for k in range(ctx.n(40, 600)):
+        cfg = cfgs[k % len(cfgs)][0]
+        jobs.append((cfg, [rng.choice(allm) for _ in range(5)]))
+    return jobs
+
+
+# ------------------------------------------------------------------------------------------------ call forms
+def call_form_block(ctx, rec):
+    """Every public preprocessing entry point called fully POSITIONALLY (pristine parameter order, POSITIONAL_ORDER) and with
+    keywords, non-default values for every parameter: the two calls must give the same object state, and it must be the
+    property's (the same SciPy calls on the initial data)."""
+    from pyoma2.functions import gen
+    from pyoma2.setup.base import BaseSetup
+    cfgs = [Cfg(True, 100.0, [(400, 3)], [], 401, None, "float"),
+            Cfg(False, 120, [(400, 3), (420, 2)], [[2, 0], [1]], 402, None, "int64")]
+    calls = [("filt", 2.0, 3, "highpass"), ("filt", [1.0, 4.0], 2, "bandstop"), ("filt", 3.0, 5, "lowpass"), ("dec", 3, {}), ("dec", 2, {"ftype": "fir", "n": 12})]
+
+    def state(im):
+        o = im.obj
+        return ([np.array(a) for a in im.datasets()], float(o.fs), float(o.dt), [int(n) for n in im.counts()])
+
+    for cfg in cfgs:
+        for op in calls:
+            case = dict(cfg.desc(), ops=[list(op)], call_forms=["positional", "keyword"])
+            site = "%s.%s" % (cfg.cls, METHOD[op[0]])
+            got = {}
+            for form in ("positional", "keyword"):
+                im = Impl(cfg)
+                try:
+                    if op[0] == "filt":
+                        if form == "positional":
+                            im.obj.filter_data(op[1], op[2], op[3])
+                        else:
+                            im.obj.filter_data(btype=op[3], order=op[2], Wn=op[1])
+                    else:
+                        if form == "positional":
+                            im.obj.decimate_data(op[1], **op[2])
+                        else:
+                            im.obj.decimate_data(**dict(op[2], q=op[1]))
+                    got[form] = state(im)
+                except Exception as e:
+                    rec.fail("oracle", "%s called %sly raised %s: %s" % (site, form, type(e).__name__, str(e)[:200]), case, "C14:%s:call-form-raises" % site)
+            ctx.count(case, nontrivial=True)
+            ctx.hist("call form block", site)
+            if len(got) < 2:
+                continue
+            want, fsx = reference(cfg, [op])
+            for form, (arrs, fs_, dt_, nd) in got.items():
+                if len(arrs) != len(want) or not all(close(a, w) for a, w in zip(arrs, want)) or not relclose(fs_, fsx) or not relclose(dt_, 1 / fsx) \
+                        or nd != [w.shape[0] for w in want]:
+                    rec.fail("oracle", "%s%s called %sly does not give the same SciPy call on the initial data (data / fs / dt / sample counts)" % (site, json.dumps(op[1:]), form),
+                             dict(case, failing_form=form), "C14:%s:call-form-%s" % (site, form))
+            a, b = got["positional"], got["keyword"]
+            if not (all(np.array_equal(x, y) for x, y in zip(a[0], b[0])) and a[1:] == b[1:]):
+                rec.fail("oracle", "%s%s: the positional and the keyword call give different results" % (site, json.dumps(op[1:])), case, "C14:%s:call-form-differs" % site)
+    # the static helpers and functions.gen.filter_data
+    cfg = cfgs[0]
+    x = cfg.pristine[0]
+    case = dict(cfg.desc(), ops=[], call_forms=["positional", "keyword"], helpers=True)
+    try:
+        sos = signal.butter(3, 2.0, btype="highpass", output="sos", fs=100.0)
+        wantf = signal.sosfiltfilt(sos, x, axis=0)
+        for name, pos, kwd in (("BaseSetup._filter_data", lambda: BaseSetup._filter_data(x, 100.0, 2.0, 3, "highpass"),
+                                lambda: BaseSetup._filter_data(btype="highpass", order=3, Wn=2.0, fs=100.0, data=x)),
+                               ("gen.filter_data", lambda: gen.filter_data(x, 100.0, 2.0, 3, "highpass"),
+                                lambda: gen.filter_data(btype="highpass", order=3, Wn=2.0, fs=100.0, data=x))):
+            for form, f in (("positional", pos), ("keyword", kwd)):
+                if not close(f(), wantf):
+                    rec.fail("oracle", "%s called %sly is not sosfiltfilt(butter(order, Wn, btype, fs), data)" % (name, form), dict(case, helper=name), "C14:%s:call-form-%s" % (name, form))
+        wantd = signal.decimate(x, 3, axis=0)
+        for form, f in (("positional", lambda: BaseSetup._decimate_data(x, 100.0, 3, axis=0)), ("keyword", lambda: BaseSetup._decimate_data(q=3, fs=100.0, data=x, axis=0))):
+            r = f()
+            if not (len(r) == 5 and close(r[0], wantd) and relclose(r[1], Fraction(100, 3)) and relclose(r[2], Fraction(3, 100)) and int(r[3]) == wantd.shape[0]):
+                rec.fail("oracle", "BaseSetup._decimate_data called %sly does not return (decimated data, fs/q, q/fs, rows, ...)" % form, dict(case, helper="_decimate_data"),
+                         "C14:BaseSetup._decimate_data:call-form-%s" % form)
+        wantt = signal.detrend(x, axis=0, type="constant")
+        for form, f in (("positional", lambda: BaseSetup._detrend_data(x, type="constant")), ("keyword", lambda: BaseSetup._detrend_data(type="constant", data=x))):
+            if not close(f(), wantt):
+                rec.fail("oracle", "BaseSetup._detrend_data called %sly is not scipy.signal.detrend(data, axis=0, type=...)" % form, dict(case, helper="_detrend_data"),
+                         "C14:BaseSetup._detrend_data:call-form-%s" % form)
+    except Exception as e:
+        rec.fail("oracle", "a static preprocessing helper raised on a documented call form (%s: %s)" % (type(e).__name__, str(e)[:200]), case, "C14:helpers:call-form-raises")
+    ctx.count(case, nontrivial=True)
+    ctx.hist("call form block", "static helpers")
+
+
 # ------------------------------------------------------------------------------------------------ driver
 def model_eval(ctx, letters, jobs, chunk):
     """jobs: list of (cfg, ops, all_steps).  Returns for each job the list over model variants of parsed state lists."""
@@ -851,16 +1277,25 @@ def run(ctx):
                          "the same object re-used when the call recurs, plus a block of every filter call x every form x {single call, repeated call, after decimation, across rollback} "
                          "on SingleSetup and PreGER with 2 and 3 datasets, also on two successive setups sharing the argument objects; no argument object may be modified; "
                          "every documented keyword VALUE (detrend type linear/l/constant/c, bp int/list/array, overwrite_data=False; decimate ftype iir/fir/IIR dlti/FIR dlti, n, zero_phase; every btype spelling of the installed butter, orders 1-8) "
-                         "alone and after a decimation on the same three layouts; records held as float64/float32/int16/int32/int64/uint16, C or Fortran order, writable or read-only (per dataset)")
+                         "alone and after a decimation on the same three layouts; records held as float64/float32/int16/int32/int64/uint16, C or Fortran order, writable or read-only (per dataset); "
+                         "MEMORY LAYER: every word of length <= 3 (thorough 4) over {decimate, detrend, detrend(overwrite_data=True), detrend(type=constant, overwrite_data=True), filter, rollback, add_algorithms} on SingleSetup float64 and PreGER float64+int16, "
+                         "length <= 2 (3) on SingleSetup int16, SingleSetup float32 Fortran, PreGER float32+float64 Fortran, plus sampled words of length 5 with bp / type / truthy-int variants: after construction and after EVERY call the alias pattern "
+                         "(np.shares_memory among user arrays, stored copy, current data, handed-over data, every algorithm's data), the content of every such array (SciPy evaluation of the model buffer's term), the floating flag and the set of arrays whose bytes changed are compared with M_prep_mem.v; "
+                         "CALL FORMS: decimate_data / filter_data are called positionally (pristine parameter order, hard-coded) or by keyword alternately in every history, plus a block calling each of them and the static helpers in both forms with non-default values")
     ctx.assumptions += [
         "SciPy is not modelled: data are symbolic terms; assumed shape contract rows(decimate(x,q)) = ceil(rows(x)/q), detrend/sosfiltfilt keep the shape (checked on every evaluated term)",
         "the harness evaluates model terms and the oracle's reference with scipy.signal.decimate/detrend/butter/sosfiltfilt of the installed SciPy (axis=0), arrays compared at 1e-9*scale, attributes at 1e-12",
         "which documented calls SciPy refuses (ScipyRaises in the model) is decided by the harness's own SciPy evaluation of the same call on the same data",
-        "keyword axis and overwrite_data=True are not exercised (overwrite_data=True makes scipy.signal.detrend work in place on the array the setup holds, which initially IS the user's array)",
+        "keyword axis is not exercised; detrend_data(overwrite_data=True) is exercised by the memory-layer block (writable records): the model (M_prep_mem.v, ow = false = the code since repo commit f6a83e1) "
+        "says no call writes any existing buffer; a modification of the user's array / of the data an algorithm holds after such a call is an oracle failure under the key %s" % OW_KEY,
+        "memory layer: buffers = allocations (np.shares_memory between the user's arrays, _initial_data(sets), data / datasets, the handed-over data and every algorithm's data); a PreGER {ref, mov} pair is one allocation unit of the model; "
+        "the user's arrays are distinct, non-overlapping, writable; a call that raises is assumed to have no memory effect (a PreGER in-place detrend that raises on a later dataset after overwriting an earlier one is not modelled)",
+        "float64 results computed from a float32 record are compared at 1e-4*scale in the memory-layer block (in-place vs copied single-precision detrending differ in rounding)",
         "a dlti instance given as ftype is named by a string in the nominal call / model term and built (IIR: cheby1(4, 0.05, 0.8/q); FIR: firwin(21, 1/q)) for each SciPy or implementation call",
     ]
     # ---- corpus (failing histories of the repaired PreGER defects) and replay
     jobs = []
+    mem_jobs = []  # histories of the memory layer: (cfg, ops)
     given = {}    # job index -> (argument forms, number of successive setups sharing the argument objects), when prescribed
     files = [ctx.replay] if ctx.replay else sorted(glob.glob(os.path.join(VERIF, "corpus", "C14", "*.json")))
     for fn in files:
@@ -868,10 +1303,17 @@ def run(ctx):
         c = c.get("case", c)
         cfg = Cfg(c["cls"] == "SingleSetup", c["fs0"], c["shapes"], c["refs"], c["data_seed"], None, c.get("fs_kind", "float"), c.get("dspec"))
         ops = [tuple(o) for o in c["ops"]]
+        if c.get("mem"):
+            mem_jobs.append((cfg, ops))
+            ctx.hist("source", "corpus")
+            continue
         given[len(jobs)] = (c.get("forms"), int(c.get("repeat_setups", 1)))
         jobs.append((cfg, ops, True))
         ctx.hist("source", "corpus")
     ncorpus = len(jobs)
+    if mem_jobs:      # the regression inputs of the repaired overwrite_data defect (f6a83e1) run before everything else
+        mem_block(ctx, rec, mem_jobs, MemEval(ctx, mem_jobs))
+        mem_jobs = []
     if not ctx.replay:
         rng = ctx.rng
         L = ctx.n(3, 4)
@@ -955,6 +1397,9 @@ def run(ctx):
     t0 = time.time()
     model = model_eval(ctx, letters, jobs, ctx.n(40, 60))
     ctx.extra["model_eval_s"] = round(time.time() - t0, 1)
+    if not ctx.replay:
+        mem_jobs += mem_jobs_generated(ctx)
+    mem_ev = MemEval(ctx, mem_jobs) if mem_jobs else None    # evaluated by Coq while the implementation is driven below
     t1 = time.process_time()
     for j, ((cfg, ops, all_steps, forms, repeat), m) in enumerate(zip(jobs, model)):
         params = Params()
@@ -985,5 +1430,8 @@ def run(ctx):
         if j < ncorpus or (j % 997 == 0):
             ctx.sample(dict(cfg.desc(), ops=[list(o) for o in ops], judged_to_end=judged), limit=6)
     ctx.extra["impl_cpu_s"] = round(time.process_time() - t1, 1)
+    if not ctx.replay:
+        call_form_block(ctx, rec)
+    mem_block(ctx, rec, mem_jobs, mem_ev)
     for (kind, key), n in sorted(rec.counts.items()):
         ctx.note("%s failure %s seen %d times" % (kind, key, n))
